@@ -235,6 +235,16 @@ func (g *Registry) TakeOrphans() []InvT {
 	return out
 }
 
+// probeKeys are the request metadata keys outside the x-vf- namespace that
+// scripts send on purpose: keys that merely look reserved. They are recorded
+// like custom keys; what grpc-go itself withholds is withheld from the direct
+// call too.
+var probeKeys = map[string]bool{
+	"grpc-trace-bin": true, "grpc-tags-bin": true, "grpc-previous-rpc-attempts": true, "grpc-foo": true, "grpc-foo-bin": true,
+	"content-typex": true, "grpc-statusx": true, "grpc-messagex": true, "grpc-encodingx": true, "grpc-timeout-x": true, "te-x": true, "user-agent-x": true,
+	"grpc-upper-case": true,
+}
+
 // customMD extracts the custom metadata (keys x-vf-*); "-bin" values are
 // rendered in hex. Transport-level keys are excluded by construction.
 func customMD(ctx context.Context) (map[string][]string, string, string) {
@@ -250,7 +260,7 @@ func customMD(ctx context.Context) (map[string][]string, string, string) {
 			out["(hop-by-hop) "+k] = append([]string(nil), vs...)
 			continue
 		}
-		if !strings.HasPrefix(k, "x-vf-") {
+		if !strings.HasPrefix(k, "x-vf-") && !probeKeys[k] {
 			continue
 		}
 		if k == "x-vf-plan-bin" {
